@@ -132,9 +132,78 @@ Section HistLemmas.
   Lemma thread_hist_other2 t (h : list (hev op ret)) ph e1 e2 :
     thread_hist t h ph -> hev_tid e1 <> t -> hev_tid e2 <> t -> thread_hist t ((h ++ [e1]) ++ [e2]) ph.
   Proof. intros H H1 H2. apply th_other; [apply th_other; assumption|assumption]. Qed.
+
+  (* ---- what [thread_hist] says, spelled out on the list ---- *)
+  Definition not_of (t : tid) (e : hev op ret) : Prop := hev_tid e <> t.
+
+  Lemma snoc_split {A} (h h1 h2 : list A) (e x : A) :
+    h ++ [e] = h1 ++ x :: h2 ->
+    (h2 = [] /\ h = h1 /\ e = x) \/ (exists h2', h2 = h2' ++ [e] /\ h = h1 ++ x :: h2').
+  Proof.
+    intros H.
+    assert (C : h2 = [] \/ exists h2' e', h2 = h2' ++ [e']).
+    { induction h2 as [|y l _] using rev_ind; [left; reflexivity|right; exists l, y; reflexivity]. }
+    destruct C as [->|(h2' & e' & ->)].
+    2: { right. exists h2'.
+      assert (H' : h ++ [e] = (h1 ++ x :: h2') ++ [e']).
+      { rewrite H, <- app_assoc. reflexivity. }
+      apply app_inj_tail in H'. destruct H' as [-> ->]. split; reflexivity. }
+    left. apply app_inj_tail in H. destruct H as [-> ->]. split; [reflexivity|split; reflexivity].
+  Qed.
+  Arguments snoc_split {A}.
+
+  Definition phase_shape (t : tid) (h : list (hev op ret)) (ph : phase op ret) : Prop :=
+    match ph with
+    | PhIdle => True
+    | PhCalled o => exists ha hb, h = ha ++ HCall t o :: hb /\ Forall (not_of t) hb
+    | PhLinned o r => exists ha hb hc, h = ha ++ HCall t o :: hb ++ HLin t o r :: hc /\
+                                       Forall (not_of t) hb /\ Forall (not_of t) hc
+    end.
+
+  Lemma thread_hist_shape t h ph : thread_hist t h ph -> phase_shape t h ph.
+  Proof.
+    intros H. induction H as [|h ph e Hh IH Hne|h o Hh IH|h o r Hh IH|h o r Hh IH]; cbn [phase_shape].
+    - exact I.
+    - destruct ph as [|o|o r]; cbn [phase_shape] in *.
+      + exact I.
+      + destruct IH as (ha & hb & -> & Hb). exists ha, (hb ++ [e]). split.
+        * rewrite <- app_assoc. reflexivity.
+        * apply Forall_app. split; [exact Hb|constructor; [exact Hne|constructor]].
+      + destruct IH as (ha & hb & hc & -> & Hb & Hc). exists ha, hb, (hc ++ [e]). split.
+        * rewrite <- !app_assoc. cbn. rewrite <- app_assoc. reflexivity.
+        * split; [exact Hb|]. apply Forall_app. split; [exact Hc|constructor; [exact Hne|constructor]].
+    - exists h, []. split; [reflexivity|constructor].
+    - destruct IH as (ha & hb & -> & Hb). exists ha, hb, []. split.
+      + rewrite <- app_assoc. reflexivity.
+      + split; [exact Hb|constructor].
+    - exact I.
+  Qed.
+
+  (* every response of t in a well-formed history is preceded by its invocation and by exactly one
+     linearisation event of t in between — same operation, same result, no other event of t *)
+  Theorem completed_call_shape_lemma t h ph :
+    thread_hist t h ph ->
+    forall h1 o r h2, h = h1 ++ HRet t o r :: h2 ->
+      exists ha hb hc, h1 = ha ++ HCall t o :: hb ++ HLin t o r :: hc /\
+                       Forall (not_of t) hb /\ Forall (not_of t) hc.
+  Proof.
+    intros H. induction H as [|h ph e Hh IH Hne|h o' Hh IH|h o' r' Hh IH|h o' r' Hh IH]; intros h1 o r h2 E.
+    - destruct h1; discriminate.
+    - destruct (snoc_split _ _ _ _ _ E) as [(_ & _ & ->)|(h2' & _ & ->)].
+      + exfalso. apply Hne. reflexivity.
+      + eapply IH. reflexivity.
+    - destruct (snoc_split _ _ _ _ _ E) as [(_ & _ & Hx)|(h2' & _ & ->)]; [discriminate|].
+      eapply IH. reflexivity.
+    - destruct (snoc_split _ _ _ _ _ E) as [(_ & _ & Hx)|(h2' & _ & ->)]; [discriminate|].
+      eapply IH. reflexivity.
+    - destruct (snoc_split _ _ _ _ _ E) as [(_ & -> & Hx)|(h2' & _ & ->)].
+      + injection Hx as -> ->. exact (thread_hist_shape _ _ _ Hh).
+      + eapply IH. reflexivity.
+  Qed.
 End HistLemmas.
 Arguments lin_ops_app {op ret}.
 Arguments seq_legal_snoc {state op ret}.
+Arguments not_of {op ret}.
 
 (* ---------- the framework theorem ---------- *)
 Section LinSysProof.
